@@ -18,6 +18,7 @@ pub fn all() -> Vec<Box<dyn Engine>> {
         Box::new(values::TblEngine),
         Box::new(modules::ModEngine),
         Box::new(compile::CmpEngine),
+        Box::new(compile::WfEngine),
         Box::new(vm::VmEngine),
         Box::new(sem::SemEngine),
     ]
